@@ -36,9 +36,9 @@ static std::string text07(const C07Case &c) {
       case 0: s += std::string(SETTER7[h.a % 5]) + "(" + std::to_string(h.b) + ")"; break;
       case 1: snprintf(b, sizeof b, "asm_set_chunk_size(%d)", CHUNKS7[h.a % 13]); s += b; break;
       case 2: snprintf(b, sizeof b, "asm_set_offset(%d)", c.n ? h.a % (c.n + 1) : 0); s += b; break;
-      case 3: snprintf(b, sizeof b, "asm_assemble_str(<%d valid lines #%d>)", 1 + h.b % 24, h.a); s += b; break;
-      case 4: snprintf(b, sizeof b, "asm_assemble_str(<program #%d with a bad line>)", h.a); s += b; break;
-      case 5: snprintf(b, sizeof b, "counting(<program #%d>, %d)", h.a, CHUNKS7[h.c % 13]); s += b; break; }
+      case 3: snprintf(b, sizeof b, "%sassemble_str(<%d valid lines #%d>)", h.a % 3 == 1 ? "" : "asm_", 1 + h.b % 24, h.a); s += b; break;
+      case 4: snprintf(b, sizeof b, "%sassemble_str(<program #%d with a bad line>)", h.a % 3 == 1 ? "" : "asm_", h.a); s += b; break;
+      case 5: snprintf(b, sizeof b, "%sassemble_string_counting_chunks(<program #%d>, %d)", h.a % 3 == 1 ? "" : "asm_", h.a, CHUNKS7[h.c % 13]); s += b; break; }
     s += "; "; }
   return s;
 }
@@ -83,8 +83,10 @@ static BV check07(const Pool &P, const C07Case &c) {
       asm_destroy_instance(sc);
     }
     int rc, cnt = 0;
-    if (h.kind == 5) { std::vector<char> w(text.begin(), text.end()); w.push_back(0); rc = asm_assemble_string_counting_chunks(a, w.data(), CHUNKS7[h.c % 13], &cnt); }
-    else rc = asm_assemble_str(a, text.c_str());
+    // the deprecated names are entry points with the same contract: a third of the calls goes through them
+    bool alias = h.a % 3 == 1;
+    if (h.kind == 5) { std::vector<char> w(text.begin(), text.end()); w.push_back(0); rc = alias ? assemble_string_counting_chunks(a, w.data(), CHUNKS7[h.c % 13], &cnt) : asm_assemble_string_counting_chunks(a, w.data(), CHUNKS7[h.c % 13], &cnt); }
+    else rc = alias ? assemble_str(a, text.c_str()) : asm_assemble_str(a, text.c_str());
     if (rc != 0 && rc != 1) { asm_destroy_instance(a); return bad("return-value", "call " + std::to_string(step) + " returned " + std::to_string(rc)); }
     size_t where = 0;
     if (!arena.canaries_ok(buf, n, &where)) { asm_destroy_instance(a); return bad("write-outside", "call " + std::to_string(step) + " modified memory outside [buffer, buffer+n): arena offset " + std::to_string(where) + " (buffer at " + std::to_string(buf - arena.data) + ")"); }
@@ -116,6 +118,7 @@ void prop_c07(hz::Ctx &ctx) {
   std::vector<std::vector<BCmd>> H = {
     {{3, 1, 2, 0}}, {{3, 2, 20, 0}}, {{2, 1000, 0, 0}, {3, 3, 1, 0}}, {{4, 4, 2, 1}, {3, 5, 2, 0}}, {{4, 4, 2, 0}, {4, 6, 1, 0}, {3, 5, 2, 0}}, {{5, 7, 3, 7}}, {{5, 7, 3, 0}, {3, 1, 1, 0}},
     {{1, 7, 0, 0}, {3, 8, 6, 0}}, {{1, 3, 0, 0}, {3, 8, 6, 0}, {3, 9, 6, 0}}, {{3, 10, 3, 0}, {3, 11, 3, 0}, {3, 12, 3, 0}}, {{3, 10, 23, 0}, {4, 1, 1, 0}, {3, 11, 23, 0}}, {{0, 4, 0, 0}, {3, 13, 8, 0}, {2, 0, 0, 0}, {5, 13, 8, 5}},
+    {{4, 7, 2, 1}, {3, 7, 2, 0}}, {{4, 7, 2, 0}, {3, 9, 3, 0}, {3, 10, 3, 0}}, {{5, 10, 2, 3}, {4, 10, 3, 2}, {5, 13, 2, 3}},   // failing calls through the deprecated names, then further calls without asm_set_offset
   };
   std::vector<int> ns; for (int n = 0; n <= 64; n++) ns.push_back(n); for (int n : {100, 128, 255, 256, 1000, 4095, 4096, 4097, 8192}) ns.push_back(n);
   for (int n : ns) for (int at_end = 0; at_end < 2; at_end++) for (auto &h : H) for (int var = 0; var < 3; var++) {
@@ -133,10 +136,10 @@ void prop_c07(hz::Ctx &ctx) {
 // ================================================================= C08
 struct C08Case { int q = 1, delta = 0, mode = 0, cidx = 7, combo = DEFAULT_COMBO, ncalls = 1; bool safe = true; uint64_t seed = 1, poolseed = 1; bool reassemble = false;
   int family = 0;   /* 1: (q*6000 - delta) one-byte nops, then one instruction of the pool, then the tail: probes the growth threshold exactly */
-  int chunkv = -1;  /* explicit chunk size (family 1) */ bool split_tail = false; /* the last call is exactly the tail */ };
-static std::string ser08(const C08Case &c) { char b[240]; snprintf(b, sizeof b, "C08|%llu|%llu|%d|%d|%d|%d|%d|%d|%d|%d:%d:%d:%d", (unsigned long long)c.poolseed, (unsigned long long)c.seed, c.q, c.delta, c.mode, c.cidx, c.combo, c.ncalls, c.safe, c.reassemble, c.family, c.chunkv, c.split_tail); return b; }
-static bool parse08(const std::string &s, C08Case &c) { auto f = split(s, '|'); if (f.size() != 11 || f[0] != "C08") return false; c.poolseed = strtoull(f[1].c_str(), nullptr, 10); c.seed = strtoull(f[2].c_str(), nullptr, 10); c.q = atoi(f[3].c_str()); c.delta = atoi(f[4].c_str()); c.mode = atoi(f[5].c_str()); c.cidx = atoi(f[6].c_str()); c.combo = atoi(f[7].c_str()); c.ncalls = atoi(f[8].c_str()); c.safe = f[9] == "1"; { auto g = split(f[10], ':'); c.reassemble = g[0] == "1"; c.family = g.size() > 1 ? atoi(g[1].c_str()) : 0; c.chunkv = g.size() > 2 ? atoi(g[2].c_str()) : -1; c.split_tail = g.size() > 3 && g[3] == "1"; } return true; }
-static std::string text08(const C08Case &c) { char b[300]; snprintf(b, sizeof b, "internal buffer: %s of about %d bytes (%s lines) in %d call(s)%s, mode %s chunk %d%s", c.family == 1 ? "nops up to the growth threshold then one instruction," : "program", c.q * 6000 + (c.family == 1 ? -c.delta : c.delta), c.safe ? "executable" : "pool", c.ncalls, c.split_tail ? " + the tail as a separate call" : "", c.mode == 0 ? "plain" : c.mode == 1 ? "fitting" : "counting", c.chunkv >= 0 ? c.chunkv : CHUNKS7[c.cidx % 13], c.reassemble ? ", then re-assembly at an earlier offset" : ""); return b; }
+  int chunkv = -1;  /* explicit chunk size (family 1) */ bool split_tail = false; /* the last call is exactly the tail */ bool failfirst = false; /* every call is first tried with a bad line appended */ };
+static std::string ser08(const C08Case &c) { char b[240]; snprintf(b, sizeof b, "C08|%llu|%llu|%d|%d|%d|%d|%d|%d|%d|%d:%d:%d:%d", (unsigned long long)c.poolseed, (unsigned long long)c.seed, c.q, c.delta, c.mode, c.cidx, c.combo, c.ncalls, c.safe, c.reassemble, c.family, c.chunkv, c.split_tail + 2 * c.failfirst); return b; }
+static bool parse08(const std::string &s, C08Case &c) { auto f = split(s, '|'); if (f.size() != 11 || f[0] != "C08") return false; c.poolseed = strtoull(f[1].c_str(), nullptr, 10); c.seed = strtoull(f[2].c_str(), nullptr, 10); c.q = atoi(f[3].c_str()); c.delta = atoi(f[4].c_str()); c.mode = atoi(f[5].c_str()); c.cidx = atoi(f[6].c_str()); c.combo = atoi(f[7].c_str()); c.ncalls = atoi(f[8].c_str()); c.safe = f[9] == "1"; { auto g = split(f[10], ':'); c.reassemble = g[0] == "1"; c.family = g.size() > 1 ? atoi(g[1].c_str()) : 0; c.chunkv = g.size() > 2 ? atoi(g[2].c_str()) : -1; { int st = g.size() > 3 ? atoi(g[3].c_str()) : 0; c.split_tail = st & 1; c.failfirst = st & 2; } } return true; }
+static std::string text08(const C08Case &c) { char b[300]; snprintf(b, sizeof b, "internal buffer: %s of about %d bytes (%s lines) in %d call(s)%s, mode %s chunk %d%s", c.family == 1 ? "nops up to the growth threshold then one instruction," : c.family == 2 ? "nops, one long instruction moved beyond the capacity by chunk fitting, 2600 more bytes:" : c.family == 3 ? "a short head, asm_set_offset to the given position, then a body" : "program", c.q * 6000 + (c.family == 1 ? -c.delta : c.delta), c.safe ? "executable" : "pool", c.ncalls, c.split_tail ? " + the tail as a separate call" : "", c.mode == 0 ? "plain" : c.mode == 1 ? "fitting" : "counting", c.chunkv >= 0 ? c.chunkv : CHUNKS7[c.cidx % 13], c.reassemble ? ", then re-assembly at an earlier offset" : ""); return b; }
 
 struct GV { bool ok = true; std::string symptom, detail; int growths = 0; bool near = false; };
 static GV check08(const Pool &P, const C08Case &c) {
@@ -150,6 +153,31 @@ static GV check08(const Pool &P, const C08Case &c) {
   if (c.family == 1) { // nops up to a position just below the threshold, then one longer instruction
     long long nn = (long long)c.q * 6000 - c.delta; for (long long i = 0; i < nn; i++) lines.push_back("nop"); total = nn;
     const std::string &l = src[r.below(src.size())]; lines.push_back(l); total += solo(l, c.combo).size(); target = total + taillen; }
+  if (c.family == 2) { // nops up to a position where exactly 20..28 bytes remain, one long instruction that chunk fitting has to move behind a boundary
+    // inside it (so that the code ends beyond the old capacity), then enough code to need the next growth as well
+    long long T = 6020 + 6000LL * (c.q - 1), pos = T - 20 - c.delta; for (long long i = 0; i < pos; i++) lines.push_back("nop"); total = pos;
+    int want = 11 + (int)(c.seed % 5); auto it = P.bylen.lower_bound(want); if (it == P.bylen.end()) --it; const std::string &l = P.lines[it->second[(c.seed / 5) % it->second.size()]]; lines.push_back(l); total += solo(l, c.combo).size();
+    target = total + 2600 + taillen; }
+  if (c.family == 3) { // a head, asm_set_offset to a position (far) beyond the code and the current length, then a body that needs further growth
+    std::vector<std::string> head, body; long long hl = 0, bl = 0; int nh = (int)(c.seed % 7); for (int i = 0; i < nh; i++) { const std::string &l = src[r.below(src.size())]; head.push_back(l); hl += solo(l, c.combo).size(); }
+    while (bl < 200 + (long long)(c.seed % 5) * 1700) { const std::string &l = src[r.below(src.size())]; body.push_back(l); bl += solo(l, c.combo).size(); }
+    size_t N = (size_t)c.chunkv + bl + 4096; std::vector<uint8_t> ext(N, 0xcc);
+    assemblyline_t in = asm_create_instance(nullptr, 0), ex = asm_create_instance(ext.data(), (int)N); if (!in) { asm_destroy_instance(ex); return bad("create", "asm_create_instance(NULL, 0) returned NULL"); }
+    al::apply_opts(in, combo_opts(c.combo)); al::apply_opts(ex, combo_opts(c.combo)); if (c.mode == 1) { asm_set_chunk_size(in, CHUNKS7[c.cidx % 13]); asm_set_chunk_size(ex, CHUNKS7[c.cidx % 13]); }
+    std::string ht = join(head), bt = join(body); int ri = 0, re = 0;
+    if (!head.empty()) { ri = asm_assemble_str(in, ht.c_str()); re = asm_assemble_str(ex, ht.c_str()); }
+    int h1 = asm_get_offset(in), h2 = asm_get_offset(ex); std::string why;
+    if (ri != re || ri != 0 || h1 != h2) why = "head: rc " + std::to_string(ri) + "/" + std::to_string(re) + " offset " + std::to_string(h1) + "/" + std::to_string(h2);
+    if (why.empty()) { int G = std::max(c.chunkv, h1); asm_set_offset(in, G); asm_set_offset(ex, G);
+      ri = asm_assemble_str(in, bt.c_str()); re = asm_assemble_str(ex, bt.c_str()); int o1 = asm_get_offset(in), o2 = asm_get_offset(ex); const uint8_t *p = (const uint8_t *)asm_get_code(in);
+      if (ri != re || ri != 0) why = "after asm_set_offset(" + std::to_string(G) + "): internal buffer returned " + std::to_string(ri) + ", large caller buffer " + std::to_string(re);
+      else if (o1 != o2) why = "after asm_set_offset(" + std::to_string(G) + "): offset " + std::to_string(o1) + " on the internal buffer, " + std::to_string(o2) + " on a large caller buffer";
+      else if (memcmp(p, ext.data(), h1)) why = "the code in front of the gap changed";
+      else if (memcmp(p + G, ext.data() + G, o1 - G)) why = "the code behind asm_set_offset(" + std::to_string(G) + ") differs from the caller-buffer result";
+      v.growths = o1 > 6000 ? (o1 - 1) / 6000 : 0; v.near = true; }
+    asm_destroy_instance(in); asm_destroy_instance(ex);
+    if (!why.empty()) return bad("offset-beyond-length", why);
+    return v; }
   while (total < target - taillen - 20) { const std::string &l = src[r.below(src.size())]; auto b = solo(l, c.combo); if (b.empty() || total + (long long)b.size() > target - taillen) continue; lines.push_back(l); total += b.size(); }
   while (total < target - taillen) { lines.push_back("nop"); total += 1; }
   lines.push_back(tail[0]); lines.push_back(tail[1]);
@@ -169,6 +197,14 @@ static GV check08(const Pool &P, const C08Case &c) {
   for (size_t cut : cuts) {
     if (cut <= li) continue; std::string text; for (; li < cut; li++) text += lines[li] + "\n"; call++;
     int ri, re, ci = 0, ce = 0; int before = asm_get_offset(in);
+    if (c.failfirst) { // the same lines followed by a bad one: the call fails on both buffers (after growing the internal one) and leaves both instances alike
+      std::string t2 = text + P.bad[(c.seed + call) % P.bad.size()] + "\n"; int fi, fe;
+      if (c.mode == 2) { std::vector<char> w1(t2.begin(), t2.end()), w2 = w1; w1.push_back(0); w2.push_back(0); fi = asm_assemble_string_counting_chunks(in, w1.data(), cs, &ci); fe = asm_assemble_string_counting_chunks(ex, w2.data(), cs, &ce); }
+      else { fi = asm_assemble_str(in, t2.c_str()); fe = asm_assemble_str(ex, t2.c_str()); }
+      if (fi != fe || fi == 0) { asm_destroy_instance(in); asm_destroy_instance(ex); return bad("return-code", "call " + std::to_string(call) + " with a bad last line: internal buffer returned " + std::to_string(fi) + ", large caller buffer " + std::to_string(fe)); }
+      if (!compare("after the failing attempt of call " + std::to_string(call))) { asm_destroy_instance(in); asm_destroy_instance(ex); return v; }
+      ci = ce = 0;
+    }
     if (c.mode == 2) { std::vector<char> w1(text.begin(), text.end()), w2 = w1; w1.push_back(0); w2.push_back(0); ri = asm_assemble_string_counting_chunks(in, w1.data(), cs, &ci); re = asm_assemble_string_counting_chunks(ex, w2.data(), cs, &ce); }
     else { ri = asm_assemble_str(in, text.c_str()); re = asm_assemble_str(ex, text.c_str()); }
     if (ri != re) { asm_destroy_instance(in); asm_destroy_instance(ex); return bad("return-code", "call " + std::to_string(call) + " (from offset " + std::to_string(before) + "): internal buffer returned " + std::to_string(ri) + ", large caller buffer " + std::to_string(re)); }
@@ -203,25 +239,34 @@ void prop_c08(hz::Ctx &ctx) {
   auto run = [&](const C08Case &c, const std::string &part, bool viarc) {
     std::string id = ser08(c); if (!ctx.begin(id, text08(c))) return;
     GV v = check08(P, c);
-    ctx.cls(part); ctx.cls(std::string("mode:") + (c.mode == 0 ? "plain" : c.mode == 1 ? "fitting" : "counting")); if (v.growths) ctx.cls("growth:yes"); if (c.safe) ctx.cls("executed"); if (c.ncalls > 1) ctx.cls("calls:split");
+    ctx.cls(part); ctx.cls(std::string("mode:") + (c.mode == 0 ? "plain" : c.mode == 1 ? "fitting" : "counting")); if (v.growths) ctx.cls("growth:yes"); if (c.safe) ctx.cls("executed"); if (c.ncalls > 1) ctx.cls("calls:split"); if (c.failfirst) ctx.cls("failing-attempt-before-each-call");
     if (v.growths && v.near) ctx.nontrivial(id);
     if (ctx.want_sample()) ctx.put_sample(text08(c) + " -> " + (v.ok ? std::to_string(v.growths) + " growth(s), identical to the caller-buffer result" + (c.safe ? ", executed correctly" : "") : v.detail));
     if (!v.ok) { hz::Failure f = fail08(c, v); if (viarc && ctx.match_known(f.tags).empty()) { rc_report(f); RC_FAIL(v.detail); } else ctx.fail(f); } };
   // systematic: every total length in q*6000 +- 40 for q = 1..5 (thorough) / stride 3 (quick), modes rotating
   int stride = ctx.thorough() ? 1 : 3;
   for (int q = 1; q <= 5; q++) for (int d = -40; d <= 40; d += stride) for (int mode = 0; mode < 3; mode++) {
-    if (!ctx.take()) continue; C08Case c; c.q = q; c.delta = d + (int)(ctx.seed % stride); c.mode = mode; c.cidx = 5 + (q + d + 40) % 6; c.combo = (q * 5 + d + 40 + mode) % 12; c.ncalls = 1 + (d + 40) % 4; c.safe = (d & 1) == 0 || mode == 1; c.seed = ctx.seed * 977 + q * 131 + (d + 40) * 7 + mode; c.poolseed = ctx.seed; c.reassemble = (d + q) % 5 == 0; c.split_tail = (d + q + mode) % 3 == 0;
+    if (!ctx.take()) continue; C08Case c; c.q = q; c.delta = d + (int)(ctx.seed % stride); c.mode = mode; c.cidx = 5 + (q + d + 40) % 6; c.combo = (q * 5 + d + 40 + mode) % 12; c.ncalls = 1 + (d + 40) % 4; c.safe = (d & 1) == 0 || mode == 1; c.seed = ctx.seed * 977 + q * 131 + (d + 40) * 7 + mode; c.poolseed = ctx.seed; c.reassemble = (d + q) % 5 == 0; c.split_tail = (d + q + mode) % 3 == 0; c.failfirst = (d + 2 * q + mode) % 4 == 1;
     run(c, "part:systematic-lengths", false);
   }
   // threshold family: fitting with chunk sizes that put a boundary just behind a multiple of 6000, and plain/counting
   {
     static const int CH[] = {3, 7, 9, 11, 13, 14, 17, 19, 23, 29, 38, 100, 1001}; int step = ctx.thorough() ? 1 : 2;
     for (int q = 1; q <= 3; q++) for (int ci = 0; ci < 13; ci++) for (int d = 0; d <= 15; d += step) for (int var = 0; var < (ctx.thorough() ? 3 : 1); var++) {
-      if (!ctx.take()) continue; C08Case c; c.family = 1; c.q = q; c.delta = d + (int)((ctx.seed + ci) % step); c.mode = (ci + d + var) % 4 == 3 ? ((d & 1) ? 0 : 2) : 1; c.chunkv = CH[ci]; c.combo = (q + ci + d) % 12; c.ncalls = 1 + (d % 2); c.safe = true; c.seed = ctx.seed * 31 + q * 1000 + ci * 50 + d + var * 7919; c.poolseed = ctx.seed; c.split_tail = (d + ci) % 3 == 0;
+      if (!ctx.take()) continue; C08Case c; c.family = 1; c.q = q; c.delta = d + (int)((ctx.seed + ci) % step); c.mode = (ci + d + var) % 4 == 3 ? ((d & 1) ? 0 : 2) : 1; c.chunkv = CH[ci]; c.combo = (q + ci + d) % 12; c.ncalls = 1 + (d % 2); c.safe = true; c.seed = ctx.seed * 31 + q * 1000 + ci * 50 + d + var * 7919; c.poolseed = ctx.seed; c.split_tail = (d + ci) % 3 == 0; c.failfirst = (d + ci + q) % 3 == 1;
       run(c, "part:threshold-family", false);
     }
   }
-  auto gen_case = rc::gen::apply([&](int q, int d, int mode, int cidx, int combo, int ncalls, bool safe, int seed, bool re) { C08Case c; c.q = q; c.delta = d; c.mode = mode; c.cidx = cidx; c.combo = combo; c.ncalls = ncalls; c.safe = safe; c.seed = (uint64_t)seed; c.poolseed = ctx.seed; c.reassemble = re; c.split_tail = (seed & 3) == 0; return c; },
+  // positions set beyond the code and beyond the current length of the library-managed buffer
+  { static const int G[] = {0, 100, 5999, 6000, 6001, 6019, 6020, 6021, 7000, 8191, 8192, 8193, 12000, 12019, 12020, 12021, 12287, 12288, 12289, 18020, 20000, 65536, 100000, 1 << 20};
+    for (int gi = 0; gi < 24; gi++) for (int var = 0; var < (ctx.thorough() ? 12 : 3); var++) { if (!ctx.take()) continue; C08Case c; c.family = 3; c.chunkv = G[gi]; c.mode = (gi + var) % 3 == 2 ? 1 : 0; c.cidx = 5 + (gi + var) % 6; c.combo = (gi * 5 + var) % 12; c.safe = false; c.seed = ctx.seed * 53 + gi * 31 + var; c.poolseed = ctx.seed; run(c, "part:offset-beyond-length", false); } }
+  // overhang family: chunk fitting pushes an instruction that started inside the 20-byte reserve rule to a position beyond the current capacity
+  for (int q = 1; q <= 3; q++) for (int d = 0; d <= 8; d++) for (int j = 1; j <= 12; j++) for (int lsel = 0; lsel < 5; lsel++) {
+    if (!ctx.thorough() && (q * 7 + d * 3 + j + lsel + ctx.seed) % 4) continue;
+    if (!ctx.take()) continue; C08Case c; c.family = 2; c.q = q; c.delta = d; c.mode = 1; long long T = 6020 + 6000LL * (q - 1); c.chunkv = (int)(T - 20 - d + j); c.combo = DEFAULT_COMBO; c.ncalls = 1 + (d + j) % 2; c.safe = false; c.seed = (uint64_t)lsel + 5 * (uint64_t)((d * 13 + j + ctx.seed) % 1000); c.poolseed = ctx.seed; c.failfirst = (d + j + lsel) % 5 == 0;
+    run(c, "part:overhang-family", false);
+  }
+  auto gen_case = rc::gen::apply([&](int q, int d, int mode, int cidx, int combo, int ncalls, bool safe, int seed, bool re) { C08Case c; c.q = q; c.delta = d; c.mode = mode; c.cidx = cidx; c.combo = combo; c.ncalls = ncalls; c.safe = safe; c.seed = (uint64_t)seed; c.poolseed = ctx.seed; c.reassemble = re; c.split_tail = (seed & 3) == 0; c.failfirst = (seed & 12) == 4; return c; },
     range(1, 6), range(-3000, 3001), range(0, 3), range(0, 13), range(0, 12), range(1, 9), rc::gen::arbitrary<bool>(), range(0, 1 << 30), rc::gen::arbitrary<bool>());
   rc_rounds(ctx, "C08-programs", ctx.thorough() ? 30000 : 4000, 100, [&]() { C08Case c = *gen_case; run(c, "part:random", true); }, 100);
 }
